@@ -33,11 +33,11 @@ def deep_equal(a, b, rtol=1e-12, arel=0.0):
     def de(x, y):
         return deep_equal(x, y, rtol, arel)
 
-    def close(x, y):
+    def close(x, y, floor=0.0):
         x, y = np.asarray(x, float), np.asarray(y, float)
         fin = np.abs(x[np.isfinite(x)])
         scale = float(fin.max()) if fin.size else 0.0
-        return bool(np.allclose(x, y, rtol=rtol, atol=arel * scale, equal_nan=True))
+        return bool(np.allclose(x, y, rtol=rtol, atol=max(arel, floor) * scale, equal_nan=True))
 
     if isinstance(a, Raised) or isinstance(b, Raised):
         return isinstance(a, Raised) and isinstance(b, Raised) and type(a.exc) is type(b.exc)
@@ -51,7 +51,7 @@ def deep_equal(a, b, rtol=1e-12, arel=0.0):
             return a.shape == b.shape and close(a, b)
         return a.shape == b.shape and bool(np.array_equal(a, b))
     if isinstance(a, pd.DataFrame):
-        return a.shape == b.shape and list(a.columns) == list(b.columns) and list(a.index) == list(b.index) and close(a.to_numpy(dtype=float), b.to_numpy(dtype=float))
+        return a.shape == b.shape and list(a.columns) == list(b.columns) and list(a.index) == list(b.index) and close(a.to_numpy(dtype=float), b.to_numpy(dtype=float), floor=1e-12)  # (a std column of nearly equal values is pure round-off: absolute allowance relative to the table's largest entry)
     if isinstance(a, (nx.Graph, nx.DiGraph)):
         return dict(a.nodes(data=True)) == dict(b.nodes(data=True)) and sorted(a.edges) == sorted(b.edges) and all(de(a.edges[e].get('e_act'), b.edges[e].get('e_act')) for e in a.edges)
     if isinstance(a, (tuple, list)):
@@ -546,7 +546,11 @@ class RealMachine(LogMachine):
         ok = []
         for c in systems:
             want, _ = sitesys.expected_states(c)
-            if not (want == -2).any() and (want[1:] != want[:-1]).any():
+            st_ = np.diff(np.array(c['diff'], float), axis=0)
+            tie = bool(st_.size and np.any(np.abs(np.abs(st_ - np.round(st_)) - 0.5) < 1e-6))
+            # (a per-frame step of exactly half a cell is a genuine minimum-image tie: the attempt frequency, and every value built on it, may then
+            # differ between two evaluations of the same trajectory - such systems are not used, as in C05 / C07)
+            if not (want == -2).any() and (want[1:] != want[:-1]).any() and not tie:
                 ok.append(c)
         self.step({'op': 'init', 'systems': ok, 'histories': [history]})
 
